@@ -35,6 +35,8 @@ pub struct Entry {
     pub consts: fn() -> (bool, bool),
     /// value term -> schema rows and bytes of `serialize_with_schema`, `debug`/`to_csv` outcomes
     pub schema: fn(&Term) -> String,
+    /// value term, number of bytes already written -> the same for `serialize_on_field_write` in the middle of a stream
+    pub schemaat: fn(&Term, usize) -> String,
     /// value term, loader, flags -> stored file, loaded structure, backing region
     pub load: Option<fn(&Term, &str, u32) -> String>,
     /// bytes of a (corrupted) file, loader, repetitions -> growth of live heap bytes and mappings
@@ -180,6 +182,40 @@ pub fn schema_generic<T: Serialize>(v: &T) -> String {
     }
 }
 
+/// `serialize_on_field_write` on a position-tracking writer that has already written `k` bytes, plain and through a
+/// `SchemaWriter`: both streams (prefix included) must be the same, the rows carry absolute offsets
+pub fn schemaat_generic<T: Serialize>(v: &T, k: usize) -> String {
+    use epserde::ser::{SchemaWriter, WriteNoStd, WriterWithPos};
+    let prefix = vec![0u8; k];
+    let mut plain: Vec<u8> = Vec::new();
+    let r0 = catch(|| {
+        let mut w = WriterWithPos::new(&mut plain);
+        w.write_all(&prefix).and_then(|_| v.serialize_on_field_write(&mut w))
+    });
+    let mut out: Vec<u8> = Vec::new();
+    let r1 = catch(|| {
+        let mut w = WriterWithPos::new(&mut out);
+        w.write_all(&prefix)?;
+        let mut sw = SchemaWriter::new(&mut w);
+        v.serialize_on_field_write(&mut sw)?;
+        Ok::<_, epserde::ser::Error>(sw.schema)
+    });
+    match (r0, r1) {
+        (Some(Ok(())), Some(Ok(schema))) => {
+            let mut s = format!("ok {} ", term::hex(&out));
+            for r in schema.0.iter() {
+                s.push_str(&format!("{},{},{},{},{};", r.field, r.offset, r.size, r.align, term::hex(r.ty.as_bytes())));
+            }
+            let csv = catch(|| schema.to_csv()).map(|c| c.lines().count());
+            let dbg = catch(|| schema.debug(&out)).map(|c| c.lines().count());
+            s.push_str(&format!(" csv={:?} debug={:?} same={}", csv, dbg, plain == out));
+            s
+        }
+        (None, _) | (_, None) => "panic".into(),
+        _ => "err".into(),
+    }
+}
+
 pub fn alloc_generic<T>(bytes: &[u8], r: usize) -> String
 where
     T: Deserialize + TypeHash + AlignHash,
@@ -247,6 +283,10 @@ where
         consts: || (<T as SerializeInner>::IS_ZERO_COPY, <T as SerializeInner>::ZERO_COPY_MISMATCH),
         schema: |t| match catch(|| T::from_term(t)) {
             Some(v) => schema_generic(&v),
+            None => "badterm".into(),
+        },
+        schemaat: |t, k| match catch(|| T::from_term(t)) {
+            Some(v) => schemaat_generic(&v, k),
             None => "badterm".into(),
         },
         wfail: |t, spec| match catch(|| T::from_term(t)) {
